@@ -170,8 +170,8 @@ pub fn cleanup_strat() -> BoxedStrategy<Cln> {
 
 /// rotating configuration with plain name parts
 pub fn rot_cfg_strat(cln: BoxedStrategy<Cln>, modes: BoxedStrategy<Mode>) -> BoxedStrategy<FileCfg> {
-    (rot_pair_strat(), cln, modes, suffix_strat(), name_parts(false), any::<bool>(), prop::bool::weighted(0.5), prop::bool::weighted(0.15))
-        .prop_map(|((crit, nam), cln, mode, suffix, (basename, discr), crlf, via_logger, utc)| {
+    (rot_pair_strat(), cln, modes, suffix_strat(), name_parts(false), any::<bool>(), prop::bool::weighted(0.5), prop::bool::weighted(0.15), build_variant_strat())
+        .prop_map(|((crit, nam), cln, mode, suffix, (basename, discr), crlf, via_logger, utc, build_variant)| {
             let empty_infix = nam.current_token().as_deref() == Some("");
             let basename = if empty_infix && basename.is_none() && discr.is_none() { Some("app".to_string()) } else { basename };
             FileCfg {
@@ -186,9 +186,15 @@ pub fn rot_cfg_strat(cln: BoxedStrategy<Cln>, modes: BoxedStrategy<Mode>) -> Box
                 symlink: false,
                 bg_cleanup: false,
                 via_logger: via_logger && !utc,
+                build_variant,
             }
         })
         .boxed()
+}
+
+/// see FileCfg::build_variant
+pub fn build_variant_strat() -> BoxedStrategy<u8> {
+    prop_oneof![3 => Just(0u8), 1 => Just(1u8), 2 => Just(2u8)].boxed()
 }
 
 pub fn runs_strat(cfg: &FileCfg, max_runs: usize, with_manips: bool, max_ops: usize) -> BoxedStrategy<Vec<MrRun>> {
